@@ -151,6 +151,12 @@ def run(ctx: Ctx) -> None:
         name, lines, leaked = variant
         ctx.check(not leaked, "H1", name, repo.loc("pprint", repo.func("pprint.PrettyPrinter._format")), f"{len(lines)} lines, no hidden value", f"hidden key data reaches the output: {leaked}")
 
+    # a key that merely starts or merely ends with two underscores is an ordinary key and is printed
+    I_h = e.interp(allow_fork=False)
+    md = printer.kv_dict("metadata", [("__lead", SStr.atom("v1", first=printer.WORD, last=printer.WORD, excludes=frozenset("\"'`"), free=True)), ("trail__", SStr.atom("v2", first=printer.WORD, last=printer.WORD, excludes=frozenset("\"'`"), free=True))])
+    lines = [pai_as(x).describe() for x in printer.block_lines(I_h, lambda: models.printer(I_h, quote='"', indent=0, end_comment=False), "layer", [("metadata", md)])]
+    ctx.check(lines == ["METADATA", '"__lead" "<v1>"', '"trail__" "<v2>"', "END"], "H1", "keys with two underscores at one end only are printed", repo.loc("pprint", repo.func("pprint.PrettyPrinter._format")), " / ".join(lines), f"a METADATA block with the keys __lead and trail__ is written as {lines}: keys that are not of the form __name__ are dropped")
+
     # ---- D1 dispatch completeness -------------------------------------------------------------------
     ctx.rule("D1", "every keyword that needs its own writer (the grammar's keyword-introduced blocks, object lists, singleton blocks, repeated keywords) is written in that shape and never by the generic KEY value writer (evaluated)", 8)
     from .c19 import special_block_rules
